@@ -33,8 +33,11 @@ import (
 	"github.com/ethereum/go-ethereum/core/types"
 	"github.com/ethereum/go-ethereum/core/vm"
 	"github.com/ethereum/go-ethereum/crypto"
+	"github.com/ethereum/go-ethereum/ethdb"
 	"github.com/ethereum/go-ethereum/internal/verifx/worldgen"
 	"github.com/ethereum/go-ethereum/rlp"
+	"github.com/ethereum/go-ethereum/trie"
+	"github.com/ethereum/go-ethereum/triedb"
 	"pgregory.net/rapid"
 	ep "verif.local/kit/evmprog"
 	vs "verif.local/kit/stat"
@@ -140,7 +143,7 @@ func TestVerifC34Stateless(t *testing.T) {
 	st := vs.New("C34", t)
 	vs.Check(t, 1, func(rt *rapid.T) {
 		c := st.Case()
-		w := worldgen.Draw(rt, worldgen.Options{MaxBlocks: 4})
+		w := worldgen.Draw(rt, worldgen.Options{MaxBlocks: 4, Collapse: true})
 		facts := &c34Facts{}
 		cfg := core.DefaultConfig()
 		scheme := []string{rawdb.HashScheme, rawdb.PathScheme}[ep.Uniform(rt, "scheme", 2)]
@@ -227,9 +230,13 @@ func TestVerifC34Stateless(t *testing.T) {
 		for i := range witness.Headers {
 			removals = append(removals, c34Removal{"header", i})
 		}
-		budget := 12
+		// Single removals are cheap (a stateless run of one small block): witnesses of up
+		// to c34Budget elements are covered completely, so that a node needed at one point
+		// only (e.g. the sibling resolved when a branch node collapses while the tries are
+		// hashed) cannot be skipped by the draw.
+		budget := c34BudgetQuick
 		if vs.Thorough() {
-			budget = 24
+			budget = c34BudgetThorough
 		}
 		if len(removals) > budget {
 			// keep every code and header removal, fill up with drawn state nodes
@@ -246,8 +253,9 @@ func TestVerifC34Stateless(t *testing.T) {
 				keep = keep[:budget+8]
 			}
 			removals = keep
+			c.Class("removals:drawn-subset")
 		} else {
-			st.Note("all %d witness elements removed in turn", len(removals))
+			c.Class("removals:every-element")
 		}
 		required, needless := 0, 0
 		for _, rm := range removals {
@@ -308,6 +316,10 @@ func TestVerifC34Stateless(t *testing.T) {
 		if err != nil {
 			rt.Fatalf("VERIF-HARNESS-BUG: dump: %v", err)
 		}
+		accCollapse, stoCollapse, err := c34BranchCollapses(b.GenDB, b.Parent(n-1).Root(), last.Root())
+		if err != nil {
+			rt.Fatalf("VERIF-HARNESS-BUG: trie dump: %v", err)
+		}
 		accountsDeleted := 0
 		for h := range pre {
 			if _, ok := postKeys[h]; !ok {
@@ -318,6 +330,21 @@ func TestVerifC34Stateless(t *testing.T) {
 			if cond {
 				c.Class(label)
 			}
+		}
+		flag(accCollapse > 0, "block:branch-collapse/account-trie")
+		flag(stoCollapse > 0, "block:branch-collapse/storage-trie")
+		if cp := w.Collapse; cp != nil {
+			included := false
+			for _, tx := range last.Transactions() {
+				if tx.To() != nil && *tx.To() == worldgen.CollapseAddr {
+					included = true
+				}
+			}
+			c.Classf("engineered-collapse:tx-included=%v", included)
+			c.Classf("engineered-collapse:pair@%d+%d", cp.PairDepth, len(cp.Extras))
+			c.Classf("engineered-collapse:victim=%s/twin@%d", cp.Victim, cp.TwinDepth)
+		} else {
+			c.Class("engineered-collapse:none")
 		}
 		flag(accountsDeleted > 0, "block:account-deleted")
 		flag(facts.slotDeleted > 0, "block:slot-deleted")
@@ -347,8 +374,119 @@ func TestVerifC34Stateless(t *testing.T) {
 		c.Sample(nontrivial, func() any {
 			return map[string]any{"descriptor": d, "required": required, "not_needed": needless, "world": w.Describe()}
 		})
-		_ = bytes.Equal
 	})
+}
+
+const (
+	c34BudgetQuick    = 40
+	c34BudgetThorough = 64
+)
+
+// c34Keys returns the (hashed) keys and values of the trie id in db (hash scheme).
+func c34Keys(tdb *triedb.Database, id *trie.ID) (keys []common.Hash, vals [][]byte, err error) {
+	tr, err := trie.New(id, tdb)
+	if err != nil {
+		return nil, nil, err
+	}
+	nit, err := tr.NodeIterator(nil)
+	if err != nil {
+		return nil, nil, err
+	}
+	it := trie.NewIterator(nit)
+	for it.Next() {
+		keys = append(keys, common.BytesToHash(it.Key))
+		vals = append(vals, common.CopyBytes(it.Value))
+	}
+	return keys, vals, it.Err
+}
+
+func c34Nibble(h common.Hash, i int) byte {
+	if i%2 == 0 {
+		return h[i/2] >> 4
+	}
+	return h[i/2] & 0x0f
+}
+
+// c34CountCollapses compares the key sets of one trie before and after the block (both
+// restricted to a common prefix of depth nibbles): it counts the positions at which the
+// old trie has a branch node (the keys fan out into two or more next nibbles) while the
+// new key set keeps exactly one of those children. geth applies a block's updates before
+// its deletions, so that is exactly where a branch node collapses into a short node and
+// the surviving child has to be resolved while the trie is updated - whether or not the
+// EVM ever read below it. Only classifies cases; asserts nothing.
+func c34CountCollapses(pre, post []common.Hash, depth int) int {
+	if len(pre) < 2 || depth >= 64 {
+		return 0
+	}
+	var preG, postG [16][]common.Hash
+	for _, k := range pre {
+		preG[c34Nibble(k, depth)] = append(preG[c34Nibble(k, depth)], k)
+	}
+	for _, k := range post {
+		postG[c34Nibble(k, depth)] = append(postG[c34Nibble(k, depth)], k)
+	}
+	preN, postN, count := 0, 0, 0
+	for i := 0; i < 16; i++ {
+		if len(preG[i]) > 0 {
+			preN++
+		}
+		if len(postG[i]) > 0 {
+			postN++
+		}
+	}
+	if preN >= 2 && postN == 1 {
+		count++
+	}
+	for i := 0; i < 16; i++ {
+		count += c34CountCollapses(preG[i], postG[i], depth+1)
+	}
+	return count
+}
+
+// c34BranchCollapses counts collapsed branch nodes of the account trie and of the
+// storage tries of the accounts that exist before and after the block.
+func c34BranchCollapses(db ethdb.Database, preRoot, postRoot common.Hash) (account, storage int, err error) {
+	tdb := triedb.NewDatabase(db, triedb.HashDefaults)
+	defer tdb.Close()
+	preK, preV, err := c34Keys(tdb, trie.StateTrieID(preRoot))
+	if err != nil {
+		return 0, 0, err
+	}
+	postK, postV, err := c34Keys(tdb, trie.StateTrieID(postRoot))
+	if err != nil {
+		return 0, 0, err
+	}
+	account = c34CountCollapses(preK, postK, 0)
+	postAcc := map[common.Hash][]byte{}
+	for i, k := range postK {
+		postAcc[k] = postV[i]
+	}
+	for i, owner := range preK {
+		pv, ok := postAcc[owner]
+		if !ok || bytes.Equal(pv, preV[i]) {
+			continue
+		}
+		var a, b types.StateAccount
+		if err := rlp.DecodeBytes(preV[i], &a); err != nil {
+			return 0, 0, err
+		}
+		if err := rlp.DecodeBytes(pv, &b); err != nil {
+			return 0, 0, err
+		}
+		if a.Root == b.Root || a.Root == types.EmptyRootHash || b.Root == types.EmptyRootHash {
+			continue
+		}
+		sa, _, err := c34Keys(tdb, trie.StorageTrieID(preRoot, owner, a.Root))
+		if err != nil {
+			return 0, 0, err
+		}
+		sb, _, err := c34Keys(tdb, trie.StorageTrieID(postRoot, owner, b.Root))
+		if err != nil {
+			return 0, 0, err
+		}
+		storage += c34CountCollapses(sa, sb, 0)
+	}
+	return account, storage, nil
 }
 
 func c34Bucket(n int) string {
